@@ -291,8 +291,10 @@ class TaskManager:
             tasks = self.cancel_all_pending_tasks()
 
         if tasks:
+            # A task that has already finished with an error is still listed until its done-callback has run: its
+            # error has been logged there, it must not end the shutdown (or whatever our caller still has to close).
             with suppress(CancelledError):
-                await gather(*tasks)
+                await gather(*tasks, return_exceptions=True)
 
         for post_shutdown_task, args, kwargs in self._shutdown_tasks:
             if iscoroutinefunction(post_shutdown_task):
